@@ -607,6 +607,38 @@ pub fn forward() {
             println!("forward-mismatch same-allocation i32 {}", x);
         }
     }
+    // formatter options must reach the payload: width, fill, alignment, sign, zero padding, precision, alternate,
+    // hex-debug — directly and nested in a derived Debug
+    macro_rules! fmt_same {
+        ($kind:expr, $x:expr, $($spec:literal),*) => {{
+            let a = Cc::new($x.clone());
+            $(
+                n += 1;
+                if format!($spec, a) != format!($spec, $x) {
+                    bad += 1;
+                    println!("forward-mismatch fmt {} {} {:?}", $kind, $spec, $x);
+                }
+            )*
+            #[derive(Debug)]
+            #[allow(dead_code)]
+            struct Wrap<T> { v: T, w: (T, u8) }
+            let (wa, wx) = (Wrap { v: Cc::new($x.clone()), w: (Cc::new($x.clone()), 1u8) }, Wrap { v: $x.clone(), w: ($x.clone(), 1u8) });
+            n += 2;
+            if format!("{:?}", wa) != format!("{:?}", wx) || format!("{:#?}", wa) != format!("{:#?}", wx) {
+                bad += 1;
+                println!("forward-mismatch fmt-nested {} {:?}", $kind, $x);
+            }
+        }};
+    }
+    for x in ints.iter() {
+        fmt_same!("i32", x, "{:>8}", "{:<8}|", "{:*^9}", "{:+}", "{:08}", "{:#?}", "{:#x?}", "{:5?}", "{:+08}", "{:<#6?}|");
+    }
+    for x in floats.iter() {
+        fmt_same!("f64", x, "{:>10}", "{:<10}|", "{:.2}", "{:+.1}", "{:010.3}", "{:.0?}", "{:12.4?}", "{:#?}");
+    }
+    for x in strs.iter() {
+        fmt_same!("str", x, "{:>6}", "{:-<6}|", "{:^7}", "{:.1}", "{:8.2}", "{:#?}", "{:10?}");
+    }
     let d: Cc<i32> = Default::default();
     let ds: Cc<String> = Default::default();
     if *d != i32::default() || *ds != String::default() {
